@@ -45,7 +45,7 @@ def reentrant_split(log):
     the same thread before the handler had delivered its last callback (e.g. close_link called from the disconnected
     callback of a link failure, connection_lost still to come): the outer transition is split in two by the inner one,
     which the atomic lifecycle model cannot express (the oracle still judges the run)."""
-    log = [e for e in log if e[0] != 'rx']
+    log = [e for e in log if e[0] in ('cb', 'ev')]
     for i, e in enumerate(log):
         if e[0] == 'ev' and e[1] == 'err':
             th = e[2]
@@ -112,6 +112,12 @@ def check(case, r):
                 a['class'] = 'send_lock_vs_mem_write_lock_inversion'
     if any(a['class'] == 'send_lock_vs_mem_write_lock_inversion' for a in out):
         return [a for a in out if a['class'] == 'send_lock_vs_mem_write_lock_inversion'][:1]
+    if out and any(a_[0] == 'connection_requested' and a_[1] == 'close' for a_ in case.get('cb_actions', ())):
+        # known finding F02l: close_link from inside connection_requested does not stop the attempt
+        for a in out:
+            if a['class'] in ('setup_callback_after_disconnected', 'trace_grammar_head'):
+                a['detail'] = {'original_class': a['class'], 'detail': a['detail']}
+                a['class'] = 'close_inside_connection_requested'
     if out and (overlapping(r['log']) or dispatcher_in_flight_at_disconnect(r['log'])):
         for a in out:
             if a['class'] not in ('link_error_from_sending_thread_wedges',):
@@ -122,7 +128,7 @@ def check(case, r):
 
 def _check(case, r):
     out = []
-    log = [e for e in r['log'] if e[0] != 'rx']
+    log = [e for e in r['log'] if e[0] in ('cb', 'ev')]
     cfg = case.get('cfg', {})
     names = [e[1] for e in log if e[0] == 'cb']
     # ---- liveness: nothing hangs, no thread dies, nothing left blocked
